@@ -13,7 +13,7 @@ import re
 from sa.cfg import CFG
 from sa.core import AnalysisError, loc, short, unparse, walk_no_nested
 from sa.fold import Folder
-from sa.guards import derivation, facts
+from sa.guards import derivation, expand_atom, facts
 from sa.regexlang import Lang, Unsupported, included
 from sa.resolve import Resolver
 
@@ -278,6 +278,8 @@ def typestate(ctx, R2, repo, fo):
                         """True iff every guard fact of the site is known to hold for this (status, ExecType, OrdStatus) cell; None when a fact is outside the model."""
                         for atom, tv in fs:
                             val = None
+                            if atom not in env and expand_atom(fn, atom) in env:
+                                atom = expand_atom(fn, atom)
                             if atom in env:
                                 val = env[atom]
                             else:
